@@ -3,6 +3,7 @@ package main
 // C09 — retry and dead-queue routing. Real RetriableBatcher (+ real Router.Fail into a dead-queue
 // Batcher) driven by harness/batchdrv with a scripted failure plan per batch (which = 0);
 // which = 1: the dead-queue wiring of fd/file.d.go, driven through fd.New(...).Start() with fake plugins (wiring.go).
+// which = 2: the real output plugins behind a real Router + dead queue against scripted far ends (route.go).
 
 import (
 	"fmt"
@@ -17,6 +18,9 @@ import (
 func exec(which int, cs hx.Sx) hx.Sx {
 	if which == 1 {
 		return execWiring(cs)
+	}
+	if which == 2 {
+		return execRoute(cs)
 	}
 	return batchdrv.RunCase(cs)
 }
@@ -181,8 +185,14 @@ func gen(c *hmain.Ctx) {
 		add("maintenance", hx.L(cfgSx(r.Range(1, 3), r.Range(1, 3), r.Range(10, 30), retry, r.Bool(), 1, r.Range(1, 3)), hx.L(mkAdder(r.Range(4, 16), true)), plan(20, retry),
 			hx.L(hx.I(0), hx.L(hx.I(0), hx.I(0), hx.I(0), hx.I(r.Range(1, 20))))))
 	}
+	// 9. which = 2 (route.go): the REAL output plugins behind a real Router with a dead queue, against scripted far ends; the
+	//    cases run while the batcher traces above are being recorded
+	routeJobs := genRouteJobs(c)
+	waitRoutes := startRouteJobs(routeJobs)
 	runJobs(c, jobs)
 	genWiring(c)
+	waitRoutes()
+	emitRouteJobs(c, routeJobs)
 }
 
 // 8. which = 1: the dead-queue wiring of fd/file.d.go (wiring.go).  Stream 'fd-wiring': configurations in which a wrong
@@ -315,6 +325,6 @@ func runJobs(c *hmain.Ctx, jobs []*job) {
 
 func main() {
 	hmain.Run(&hmain.Prop{ID: "C09",
-		Rule: "each case = (retriable batcher config incl. AttemptNum and dead queue, Add scripts, per-batch failure plan) run on the real RetriableBatcher + Router.Fail + dead-queue Batcher; observable = label trace of both batchers. Exhaustive stream: retry in {-1000000,-7,-3,-2,-1,0,1,2,3} x consecutive failures 0..retry+3 (0..4 for negative counts) x dead queue on/off. Streams 'backoff-stop' (MinRetention 1 h: backoff.Stop on the first failure; retry {-1,0,3} x failures 0..2 x dead queue), 'backoff-growing' (MinRetention 6..14 ms, Multiplier 1.5/2/3, 4..5 consecutive failures: pause k >= MinRetention*Multiplier^k/2) and 'maintenance' (MaintenanceFn every 1..20 ms) carry the backoff / maintenance options in the stop tuple. which = 1 (streams 'fd-wiring', 'fd-wiring-distinct'): N pipelines parsed and started by fd.FileD, each output / dead-queue plugin reports the config it was started with. Every case is non-trivial; distinct = distinct case text.",
+		Rule: "each case = (retriable batcher config incl. AttemptNum and dead queue, Add scripts, per-batch failure plan) run on the real RetriableBatcher + Router.Fail + dead-queue Batcher; observable = label trace of both batchers. Exhaustive stream: retry in {-1000000,-7,-3,-2,-1,0,1,2,3} x consecutive failures 0..retry+3 (0..4 for negative counts) x dead queue on/off. Streams 'backoff-stop' (MinRetention 1 h: backoff.Stop on the first failure; retry {-1,0,3} x failures 0..2 x dead queue), 'backoff-growing' (MinRetention 6..14 ms, Multiplier 1.5/2/3, 4..5 consecutive failures: pause k >= MinRetention*Multiplier^k/2) and 'maintenance' (MaintenanceFn every 1..20 ms) carry the backoff / maintenance options in the stop tuple. which = 1 (streams 'fd-wiring', 'fd-wiring-distinct'): N pipelines parsed and started by fd.FileD, each output / dead-queue plugin reports the config it was started with. which = 2 (streams 'route-*'): case = (plugin kind, dead queue, retry, fatal, strict, split_batch, workers, batch size, batches, answer script, tail answer) run on the REAL elasticsearch / http / splunk / loki / socket / clickhouse / gelf output behind a real Router with a dead-queue plugin against a scripted far end; observable = (requests seen, Fatal log entries, per event (commits by main, handed to dead queue, commits by dead queue)). Every case is non-trivial; distinct = distinct case text.",
 		Gen:  gen, Exec: exec})
 }
